@@ -967,9 +967,7 @@ public:
 		{
 			if (dstCount == 0)
 			{
-				std::swap(mCount, dstTreeSet.mCount);
-				std::swap(mRootNode, dstTreeSet.mRootNode);
-				std::swap(mNodeParams, dstTreeSet.mNodeParams);
+				Swap(dstTreeSet);
 				mCrew.IncVersion();
 				dstTreeSet.mCrew.IncVersion();
 				return;
